@@ -277,9 +277,37 @@ def check_poisson_params(case, ctx):
     ctx.nontrivial(D >= 3 and case["K"] >= 2 and M > 0)
 
 
+BIG_N = [60, 400, 1032, 1500, 5000]
+
+
+def _check_kappa_large(case, ctx):
+    """"for all N": the normalisation of a model with many nodes, where binom(N-2, d-2) leaves
+    the float range (N-2 >= 1030 with mid-range sizes) -- log_kappa must stay the logarithm of
+    the exact integer.  Only u of shape (N, 1) is built; nothing is enumerated."""
+    from hypergraphx.communities.hy_mmsbm.model import HyMMSBM
+    N = BIG_N[case["perm"] % len(BIG_N)]
+    model = HyMMSBM(u=np.ones((N, 1)), w=np.ones((1, 1)), max_hye_size=N)
+    sizes = sorted({2, 3, N // 7, N // 3, N // 2, N // 2 + 1, N - 1, N})
+    sizes = [d for d in sizes if 2 <= d <= N]
+    exact = [math.log(math.comb(N - 2, d - 2)) + math.log(d * (d - 1) // 2) for d in sizes]
+    for d, e in zip(sizes, exact):
+        got = float(model.log_kappa(d))
+        require(math.isfinite(got) and abs(got - e) <= 1e-9 * max(1.0, abs(e)),
+                lambda: "log_kappa(%d) with N=%d: expected log(binom(N-2,d-2)*d*(d-1)/2) = %r, "
+                        "got %r" % (d, N, e, got), key="log_kappa_large")
+    got = np.asarray(model.log_kappa(np.array(sizes)), dtype=float).tolist()
+    require(len(got) == len(sizes) and all(
+        math.isfinite(g) and abs(g - e) <= 1e-9 * max(1.0, abs(e)) for g, e in zip(got, exact)),
+        lambda: "log_kappa(array %r) with N=%d: expected %r, got %r" % (sizes, N, exact, got),
+        key="log_kappa_large")
+    ctx.label("large_N=%d" % N)
+
+
 def check_kappa(case, ctx):
     N, D = case["N"], case["D"]
     _classify(case, ctx)
+    if case["perm"] % 8 == 0:
+        _check_kappa_large(case, ctx)
     model, _, _ = make_model(case)
     dims = case["dims"]
     for d in range(2, D + 1):
